@@ -7,11 +7,13 @@ namespace glm
 	{
 		vec<3, T, Q> u(q.x, q.y, q.z);
 		T const Angle = glm::length(u);
+		// exp(w + u) = exp(w) * (cos|u| + sin|u| * u / |u|)
+		T const ExpW = glm::exp(q.w);
 		if (Angle < epsilon<T>())
-			return qua<T, Q>();
+			return qua<T, Q>::wxyz(ExpW, static_cast<T>(0), static_cast<T>(0), static_cast<T>(0));
 
 		vec<3, T, Q> const v(u / Angle);
-		return qua<T, Q>(cos(Angle), sin(Angle) * v);
+		return qua<T, Q>(ExpW * cos(Angle), ExpW * sin(Angle) * v);
 	}
 
 	template<typename T, qualifier Q>
